@@ -124,10 +124,15 @@ def run(ctx):
              'deadpool::managed::builder::PoolBuilder::new', 'deadpool::managed::Pool::status', 'deadpool::managed::Pool::timeouts',
              'deadpool::managed::Pool::manager', 'deadpool::managed::Pool::is_closed', '<deadpool::managed::Pool<M, W> as std::clone::Clone>::clone',
              'deadpool::managed::Object::metrics', 'deadpool::managed::Object::pool']
+    n_quiet = 0
     for qn in quiet:
         qb = prog.body(qn) or prog.bodies.get(qn)
         if qb is None:
+            # non-public helpers (from_builder, PoolBuilder::new) are absorbed into their callers by the normalisation
+            if qn.split('::')[-1] in ('from_builder', 'new'):
+                continue
             ctx.undecide('R08.4', 'public function %s not found' % qn); continue
+        n_quiet += 1
         reg = prog.region([qb.path])
         hits = [(prog.bodies[p].name, w) for p in reg for blk, w in user_code_calls(prog.bodies[p]) if not blk.cleanup]
         ctx.ob('R08.4', '%s calls no manager / hook / predicate' % qn.split('::')[-1], not hits, ctx.where(qb), str(hits[:3]), construct='quiet:' + qn.split('::')[-1])
